@@ -335,7 +335,7 @@ func (x *Exec) callByContract(st *State, fr *Frame, callee *ssa.Function, fc *Fu
 	// itself no longer calls the callee, and has no loop): the n-th call along the path stands for it.
 	if x.fc != nil && len(x.fc.Asserts) > 0 && len(st.frames) >= 1 && st.frames[0].Fn == x.fn {
 		st.callNo["dyn:"+short]++
-		if fr.Fn != x.fn && !hasStaticSite(x.fn, short) && !hasLoop(x.fn) {
+		if fr.Fn != x.fn && !hasStaticSite(x.fn, short) && len(x.P.Loops(x.fn)) == 0 {
 			dyn := st.callNo["dyn:"+short]
 			for _, a := range x.fc.Asserts {
 				if a.At == fmt.Sprintf("%s#%d", short, dyn) {
@@ -518,19 +518,6 @@ func hasStaticSite(fn *ssa.Function, short string) bool {
 	for _, b := range fn.Blocks {
 		for _, ins := range b.Instrs {
 			if c, ok := ins.(ssa.CallInstruction); ok && calleeShortName(c.Common()) == short {
-				return true
-			}
-		}
-	}
-	return false
-}
-
-func hasLoop(fn *ssa.Function) bool {
-	seen := map[*ssa.BasicBlock]bool{}
-	for _, b := range fn.Blocks {
-		seen[b] = true
-		for _, s := range b.Succs {
-			if seen[s] && s.Index <= b.Index {
 				return true
 			}
 		}
@@ -923,10 +910,11 @@ func (x *Exec) callBySlot(st *State, fr *Frame, sc *FuncContract, slot string, s
 		x.oblige(st, tag, label, props, x.evalBool(env, r.Expr), where, r.Src)
 	}
 	// call-site assertions of the caller's contract (At: "slot:<name>")
-	if x.fc != nil && fr.Fn == x.fn {
+	// (also when the call through the slot sits in a contract-less helper inlined into the function)
+	if x.fc != nil && (fr.Fn == x.fn || (len(st.frames) >= 2 && st.frames[0].Fn == x.fn)) {
 		for _, a := range x.fc.Asserts {
 			if a.At == "slot."+slot {
-				cenv := x.envFor(st, x.entry, fr)
+				cenv := x.envFor(st, x.entry, st.frames[0])
 				for k, v := range env.vars {
 					cenv.vars["$"+k] = v
 				}
